@@ -22,7 +22,6 @@ import (
 	"fmt"
 	"os"
 	"runtime/debug"
-	"runtime/pprof"
 	"sort"
 	"strconv"
 	"strings"
@@ -298,6 +297,20 @@ func cases() []tcase {
 				return &msgObj{m, ct}, nil
 			}})
 	}
+	// a source without question section, copied into a used message
+	cs = append(cs, tcase{name: "Msg/CopyTo/no-question",
+		build: func() object {
+			m := buildMsg(true)
+			m.Question = nil
+			return &msgObj{m, true}
+		},
+		unpack: func(buf []byte) (object, error) {
+			m := new(dns.Msg)
+			if err := m.Unpack(buf); err != nil {
+				return nil, err
+			}
+			return &msgObj{m, true}, nil
+		}})
 	return cs
 }
 
@@ -398,7 +411,7 @@ func (r *runner) episode(tc *tcase, v *vector) {
 			objs[s.Y] = o
 			how[s.Y] = "unpack"
 		case "mutate":
-			r.probe(tc, v, k, objs, snaps, live, s.X, buf, bufSaved)
+			r.probe(tc, v, k, objs, snaps, live, s.X, buf, bufSaved, how)
 			objs[s.X].Persist(s.Slot)
 		case "scribble":
 			flip(buf)
@@ -459,6 +472,9 @@ func (r *runner) episode(tc *tcase, v *vector) {
 				for i := 0; i < len(a.Parts) && i < len(b.Parts); i++ {
 					if a.Parts[i].Norm != b.Parts[i].Norm {
 						name = b.Parts[i].Name
+						if f := diffField(a.Parts[i].Norm, b.Parts[i].Norm); f != "" {
+							name += "-" + f
+						}
 						break
 					}
 				}
@@ -496,7 +512,7 @@ func (r *runner) episode(tc *tcase, v *vector) {
 // probe performs a Mutate of EVERY writable cell of object x (scalars, strings, slice
 // elements, slice headers, pointers, interfaces, map entries), one at a time, and looks
 // at every other object and at the buffer after each; the cell is then restored.
-func (r *runner) probe(tc *tcase, v *vector, k int, objs map[int]object, snaps map[int]*rw.Snap, live []int, x int, buf, bufSaved []byte) {
+func (r *runner) probe(tc *tcase, v *vector, k int, objs map[int]object, snaps map[int]*rw.Snap, live []int, x int, buf, bufSaved []byte, how map[int]string) {
 	sig := tc.name + "|" + strconv.Itoa(x)
 	for _, s := range v.Ops[:k] { // the aliasing structure depends on the creation history only
 		if s.Op == "copy" || s.Op == "unpack" {
@@ -527,11 +543,20 @@ func (r *runner) probe(tc *tcase, v *vector, k int, objs map[int]object, snaps m
 			}
 			if got := rw.Walk(objs[y].Root()); got.Exact() != snaps[y].Exact() {
 				name, path := rw.FirstDiff(snaps[y], got)
-				r.mis("copy/"+name+"-shared", fmt.Sprintf("%s: writing %s of object %d is visible in object %d at %s", tc.name, c.Path, x, y, path), tc, v, k)
+				pre := "copy/"
+				if how[x] == "unpack" && how[y] == "unpack" {
+					pre = "unpack/"
+				}
+				r.mis(pre+name+"-shared", fmt.Sprintf("%s: writing %s of object %d (%s) is visible in object %d (%s) at %s", tc.name, c.Path, x, how[x], y, how[y], path), tc, v, k)
 			}
 		}
 		if !bytes.Equal(buf, bufSaved) {
-			r.mis("pack/"+c.Name+"-aliases-buffer", fmt.Sprintf("%s: writing %s of object %d changed the wire buffer", tc.name, c.Path, x), tc, v, k)
+			pre := "pack/"
+			if how[x] == "unpack" {
+				pre = "unpack/"
+			}
+			r.mis(pre+c.Name+"-aliases-buffer", fmt.Sprintf("%s: writing %s of object %d (%s) changed the wire buffer", tc.name, c.Path, x, how[x]), tc, v, k)
+			copy(bufSaved, buf)
 		}
 		revert()
 	}
@@ -572,6 +597,26 @@ func replay(path string, shard, nshards int, only string) {
 	sum.Nontrivial = len(r.seen)
 	sum.Note("episodes", n)
 	sum.Print()
+}
+
+// diffField names the struct field in whose rendering two contents first differ.
+func diffField(a, b string) string {
+	i := 0
+	for i < len(a) && i < len(b) && a[i] == b[i] {
+		i++
+	}
+	if i > len(a) {
+		i = len(a)
+	}
+	c := strings.LastIndexByte(a[:i], ':')
+	if c < 0 {
+		return ""
+	}
+	j := c
+	for j > 0 && (a[j-1] >= 'A' && a[j-1] <= 'Z' || a[j-1] >= 'a' && a[j-1] <= 'z' || a[j-1] >= '0' && a[j-1] <= '9' || a[j-1] == '_') {
+		j--
+	}
+	return strings.ToLower(a[j:c])
 }
 
 func opNames(v *vector) []string {
@@ -712,7 +757,7 @@ func record(out string, episodes int) {
 	smallTo := small
 	smallTo.name = "Msg/small/CopyTo"
 	smallTo.build = func() object { return &msgObj{buildMsg(true), true} }
-	cs = append(cs[:len(cs)-2], small, smallTo) // the full-size messages are for the replay tier
+	cs = append(cs[:len(cs)-3], small, smallTo) // the full-size messages and the value-equality case are for the replay tier
 	ro := []string{"Pack", "Len", "String", "IsDuplicate", "Copy", "Sign", "Verify"}
 	seen := map[string]bool{}
 	var keep [][]byte // scribbled and replaced buffers stay referenced: their addresses must not be reused within an episode
@@ -795,10 +840,11 @@ func record(out string, episodes int) {
 				valid = !valid
 				rc.emit(&event{Ev: "scribble", T: tc.name}, objs, buf)
 			case c < 7:
-				nb, err := objs[x].Pack()
+				nb, err := objs[x].Pack() // packing is itself a read-only operation on x (it writes RDLENGTH)
 				if err != nil {
 					continue
 				}
+				rc.emit(&event{Ev: "ro", T: tc.name, Op: "Pack", X: x, Xs: []int{x}}, objs, buf)
 				keep = append(keep, buf)
 				buf, valid = nb, true
 				rc.emit(&event{Ev: "newbuf", T: tc.name, X: x}, objs, buf)
@@ -833,11 +879,6 @@ func main() {
 		hx.Die("usage: heap replay|record|kinds ...")
 	}
 	debug.SetGCPercent(400)
-	if pf := os.Getenv("HEAP_PROF"); pf != "" {
-		f, _ := os.Create(pf)
-		pprof.StartCPUProfile(f)
-		defer pprof.StopCPUProfile()
-	}
 	switch os.Args[1] {
 	case "replay":
 		if len(os.Args) < 5 {
